@@ -506,8 +506,9 @@ def native_cargo_test(base_src, scratch, files, test_name, logdir, tag):
         rc, wall, to = run_limited(cmd, dst, logf, 900, 16, env=env)
         txt = open(logf, errors="replace").read()
         ran = re.search(r"test result: (\w+)\. (\d+) passed; (\d+) failed", txt)
-        out[prof] = {"rc": rc, "ran": bool(ran and int(ran.group(2)) + int(ran.group(3)) > 0), "failed": bool(ran and int(ran.group(3)) > 0),
-                     "panic": re.findall(r"panicked at ([^\n]*\n[^\n]*)", txt)[:2], "log": logf}
+        crashed = re.search(r"process didn't exit successfully[^\n]*\(signal: \d+, (SIGABRT|SIGSEGV|SIGBUS|SIGILL)", txt)
+        out[prof] = {"rc": rc, "ran": bool((ran and int(ran.group(2)) + int(ran.group(3)) > 0) or crashed), "failed": bool((ran and int(ran.group(3)) > 0) or crashed),
+                     "panic": re.findall(r"panicked at ([^\n]*\n[^\n]*)", txt)[:2] + ([crashed.group(0)[-60:]] if crashed else []) + re.findall(r"memory allocation of \d+ bytes failed", txt)[:1], "log": logf}
     out["reproduced"] = any(out[p]["failed"] for p in ("dev", "release"))
     out["ran"] = all(out[p]["ran"] for p in ("dev", "release"))
     return out
